@@ -93,6 +93,7 @@ type FuncContract struct {
 	AssumeRanges bool
 	FPMonotone   bool
 	FPInexact    bool
+	Bounded      []BoundedCheck
 	FPAbstract   bool      // floats are unconstrained values (NaN/Inf included); only float-independent facts are provable
 	Contended    bool      // runs concurrently with writers of the mutexes it read-locks
 	Variant      string    // "" or the name of the verification variant this contract belongs to
@@ -122,6 +123,15 @@ type Pred struct {
 	Body    SExpr
 	Text    string
 	PkgPath string
+}
+
+// BoundedCheck: a bounded run of the real code registered on a function under contract (driver: a Go test in
+// /verif/replay/bounded/<driver>_test.go.txt injected with go test -overlay).
+type BoundedCheck struct {
+	Driver string
+	Text   string
+	Label  string
+	Props  []string
 }
 
 type GhostVar struct {
@@ -228,7 +238,7 @@ var clauseKeywords = map[string]bool{
 	"props": true, "requires": true, "ensures": true, "onpanic": true, "modifies": true, "nopanic": true,
 	"maypanic": true, "recovers": true, "loop": true, "dyncall": true, "ghost": true, "assert": true,
 	"sweep": true, "trusted": true, "unreachable": true, "note": true, "implements": true, "arith": true,
-	"panics": true, "inv": true, "hyp": true, "goal": true, "vars": true, "thread-root": true, "assume-ranges": true, "fp-monotone": true, "fp-inexact": true, "fp-abstract": true, "contended": true, "interference": true,
+	"panics": true, "inv": true, "hyp": true, "goal": true, "vars": true, "thread-root": true, "assume-ranges": true, "fp-monotone": true, "fp-inexact": true, "fp-abstract": true, "contended": true, "interference": true, "bounded": true,
 }
 
 func firstWord(s string) (string, string) {
@@ -569,6 +579,15 @@ func (cs *ContractSet) parseClause(fc *FuncContract, c rawLine, path string) err
 	case "contended":
 		// may run while another thread write-locks the same mutexes: recursive read locking can then deadlock
 		fc.Contended = true
+	case "bounded":
+		// bounded <driver> : <what is enumerated and the bound> — a bounded check of the real function stands in for a
+		// clause the verifier cannot decide; it is run and reported separately and never counted as proved
+		label, props, t := stripTags(body)
+		i := strings.Index(t, ":")
+		if i < 0 {
+			return fmt.Errorf("%s:%d: bounded: expected '<driver> : <description>'", path, c.line)
+		}
+		fc.Bounded = append(fc.Bounded, BoundedCheck{Driver: strings.TrimSpace(t[:i]), Text: strings.TrimSpace(t[i+1:]), Label: label, Props: props})
 	case "note":
 		fc.Notes = append(fc.Notes, body)
 	case "arith":
